@@ -39,6 +39,9 @@ def body(run):
         lambda: exe.__setitem__(0, run.go_build("clientconn")),
         lambda: run.tlc("ClientConn", "ClientConnMC", "C27_gen_full.cfg", mode="gen", count=False, timeout=3000,
                         label="as-is model: behaviours that end with a goroutine about to signal on a full channel"),
+        lambda: run.tlc("ClientConn", "ClientConnMC", "C27_gen_mon.cfg", mode="gen", count=False, timeout=3000,
+                        simulate=run.pick(200, 1500), depth=150,
+                        label="as-is model: calls racing one reconnect (reset / restart), monitor arms as steps"),
         # thorough: the model of the proposed repair (non-blocking sends only) has no stuck call either
         (lambda: None) if q else (lambda: run.tlc("ClientConn", "ClientConnMC", "C27_fix_nonblocking.cfg", timeout=3000, workers=6,
                                                    label="repair model: non-blocking signal sends, two channels kept -> no stuck call")),
@@ -52,14 +55,16 @@ def body(run):
     sel_stuck = cl.pick(stuck, run.pick(2, 40), run.seed, key=lambda b: b["lpc"])
     sel_lost = cl.pick(sorted(lost, key=lambda b: len(b["steps"])), run.pick(2, 12), run.seed, key=lambda b: len(b["steps"]) // 6)
     normal = [b for b in sim if not b["stuck"] and not b["lostresume"]]
-    sel_norm, feats = cl.pick_features(normal, run.pick(7, 80), run.seed)
+    sel_norm, feats = cl.pick_features(normal, run.pick(6, 80), run.seed)
     run.cov["situations_covered"] = feats
     full = res[6].rows
     sel_full = cl.pick(sorted(full, key=lambda b: len(b["steps"])), run.pick(2, 20), run.seed,
                        key=lambda b: (json.dumps(sorted(b["full"])), b["lpc"], b["mux"]))
     run.cov["behaviours_full_channel"] = len(full)
+    sel_mon, mon_sits = cl.pick_mon(res[7].rows, run.pick(3, 30), run.seed)
+    run.cov["monitor_situations_covered"] = mon_sits
     cases, scripts = [], {}
-    for kind, sel, tries in (("stuck", sel_stuck, 2), ("lost", sel_lost, 6), ("full", sel_full, 3), ("norm", sel_norm, 3)):
+    for kind, sel, tries in (("stuck", sel_stuck, 2), ("lost", sel_lost, 6), ("full", sel_full, 3), ("norm", sel_norm, 3), ("mon", sel_mon, 2)):
         for i, b in enumerate(sel):
             c = cl.strip_init(b)
             c["id"] = "%s%d" % (kind, i)
@@ -73,8 +78,12 @@ def body(run):
         raise vf.Inconclusive("harness returned %d results for %d cases" % (len(results), len(cases)))
     # trace validation of every recorded replay (also of the ones whose select order drifted)
     lines, ntr = [], 0
+    mon_traces = []
     for r in results:
         tr = (r.get("obs") or {}).pop("trace", None)
+        if tr and str(r["case"]).startswith("mon"):
+            mon_traces.append((r["case"], "\n".join(json.dumps(x) for x in cl.normalize_life(tr)) + "\n"))
+            tr = None
         if tr:
             recs = cl.normalize_replay(tr, scripts.get(r["case"], {}))
             if len(recs) > 1:
@@ -105,6 +114,19 @@ def body(run):
         else:
             run.save_text("tlc-trace.out", tv.out)
             raise vf.Inconclusive("trace validation did not run: %s" % (tv.error,))
+    # replays with a fault: the gated trace is also a free-running trace, validated against ClientConnLife
+    def vmon(t):
+        try:
+            return t[0], run.tlc("ClientConn", "ClientConnLife", "ClientConnLife.cfg", mode="trace", files={"trace.ndjson": t[1]}, deque=True,
+                                 count=True, timeout=run.pick(120, 600), label="trace validation of replay %s (with reconnect)" % t[0])
+        except vf.Inconclusive:
+            return t[0], None
+    if mon_traces:
+        for cid, tv in run.parallel(*[(lambda t=t: vmon(t)) for t in mon_traces]):
+            if tv is not None and tv.ok:
+                run.cov["traces_validated_against_impl"] += 1
+            else:
+                run.cov["traces_unexplained"] = run.cov.get("traces_unexplained", 0) + 1
     run.cov["rule"] = ("one case per TLC behaviour of the as-is model replayed step by step at the hook gates; class = call "
                        "scripts per application goroutine x end state (rest / stuck / lost resume) x loop park point")
     run.cov["behaviours_bad_end_states"] = len(bad)
